@@ -68,7 +68,8 @@ DenseSymmetricMatrix compute_covariance_matrix(RandomAccessIterator begin, Rando
     covariance_matrix /= (end - begin);
     covariance_matrix.selfadjointView<Eigen::Upper>().rankUpdate(mean, -1.0);
 
-    return covariance_matrix;
+    // only the upper triangle was accumulated, return the full symmetric matrix
+    return DenseSymmetricMatrix(covariance_matrix.selfadjointView<Eigen::Upper>());
 }
 
 template <class RandomAccessIterator, class KernelCallback>
